@@ -14,6 +14,7 @@
 #include "c10_alloc.h"
 #include <inttypes.h>
 #include <assert.h>
+#include <unistd.h>
 
 #define RET_SKIP 99
 #define RET_NULL 98     // constructor returned NULL
@@ -256,6 +257,31 @@ static bool build_recipe(recipe_t *r, const char *spec)
 			}
 			if (nb == 0 && !code_all(&st, NULL, 0, LZMA_FINISH, &r->data)) { lzma_end(&st); return false; }
 			lzma_end(&st);
+		}
+		return true;
+	}
+	if (!strcmp(t[0], "xzmt") && n == 6) {
+		// xzmt/<check>/<chain>/<len>/<nblocks>/<nstreams>: written by the THREADED encoder with block_size = len, so
+		// every Block Header carries the sizes and lzma_stream_decoder_mt() really decodes with worker threads
+		chain_t c;
+		if (!parse_chain(t[2], &c)) return false;
+		size_t len = strtoul(t[3], NULL, 10);
+		int nb = atoi(t[4]), ns = atoi(t[5]);
+		if (len == 0 || nb <= 0) return false;
+		for (int s = 0; s < ns; ++s) {
+			lzma_stream st = LZMA_STREAM_INIT;
+			lzma_mt mt;
+			memset(&mt, 0, sizeof mt);
+			mt.threads = 2; mt.block_size = len; mt.filters = c.f; mt.check = parse_check(t[1]);
+			if (lzma_stream_encoder_mt(&st, &mt) != LZMA_OK) return false;
+			uint8_t *d = malloc(len * (size_t)nb + 1);
+			for (int b = 0; b < nb; ++b)
+				gen_data(d + len * (size_t)b, len, (uint32_t)(s * 100 + b + 31));
+			buf_put(&r->plain, d, len * (size_t)nb);
+			bool ok = code_all(&st, d, len * (size_t)nb, LZMA_FINISH, &r->data);
+			free(d);
+			lzma_end(&st);
+			if (!ok) return false;
 		}
 		return true;
 	}
@@ -800,6 +826,27 @@ static int do_step(char *tok)
 		if (!usable || kind < K_SDEC) return RET_SKIP;
 		return do_decode();
 	}
+	if (!strcmp(op, "dpart") && n == 2) {
+		// feed only the first <n> bytes of the recipe with LZMA_RUN and then ABANDON the decode (input "simply stops",
+		// typically in the middle of a Block); the handle is re-initialised or ended by the following steps
+		if (!usable || kind < K_SDEC || cur_recipe == NULL) return RET_SKIP;
+		size_t nb = strtoul(a[1], NULL, 10);
+		if (nb > cur_recipe->data.n) nb = cur_recipe->data.n;
+		uint8_t tmp[8192];
+		lzma_ret r = LZMA_OK;
+		int idle = 0;
+		strm.next_in = cur_recipe->data.p; strm.avail_in = nb;
+		while (r == LZMA_OK && idle < 3) {
+			size_t in_before = strm.avail_in;
+			strm.next_out = tmp; strm.avail_out = sizeof tmp;
+			r = lzma_code(&strm, LZMA_RUN);
+			if (r == LZMA_NO_CHECK || r == LZMA_UNSUPPORTED_CHECK || r == LZMA_GET_CHECK) r = LZMA_OK;
+			if (strm.avail_in == in_before && strm.avail_out == sizeof tmp) ++idle; else idle = 0;
+			if (strm.avail_in == 0 && strm.avail_out != 0) break;
+		}
+		usable = false;
+		return (int)r;
+	}
 	if (!strcmp(op, "upd") && n == 2) {
 		// also on raw / block encoders and after LZMA_FINISH: such updates are (mostly) REFUSED by the coder, which
 		// must not cost or leak anything
@@ -1203,6 +1250,9 @@ int main(void)
 			fflush(stdout);
 			continue;
 		}
+		// watchdog: a scenario takes milliseconds to a few seconds; a hang (e.g. waiting for a worker thread that does
+		// not exist) kills the process with SIGALRM and is reported like a crash
+		alarm(90);
 		ta_reset();
 		errbuf[0] = 0; rets[0] = 0; stepno = 0; mt_seen = false;
 		usable = false; finished = false; kind = K_NONE; cur_recipe = NULL; cur_slot = -1;
@@ -1232,6 +1282,7 @@ int main(void)
 		for (int i = 0; i < NIX; ++i) { lzma_index_end(ix[i], &TA_ALLOC); ix[i] = NULL; }
 		ta_reset();
 	}
+	alarm(0);
 	free(line);
 	return 0;
 }
